@@ -51,6 +51,7 @@ type mapCall struct {
 	Len     int `json:"len"`
 	Chunk   int `json:"chunk"`
 	Threads int `json:"threads"`
+	FailAt  int `json:"fail_at"` // the chunk containing this index returns an error (-1: none)
 }
 
 type childJob struct {
@@ -196,17 +197,31 @@ func runProc(c procCase) {
 
 type span struct{ i, j int }
 
-type mapper struct{ i, j int }
+type mapper struct{ i, j, failAt int }
 
-func (m mapper) Operation() (interface{}, error)  { return span{m.i, m.j}, nil }
-func (m mapper) Slice(i, j int) concurrent.Mapper { return mapper{m.i + i, m.i + j} }
+func (m mapper) Operation() (interface{}, error) {
+	if m.failAt >= m.i && m.failAt < m.j {
+		time.Sleep(time.Millisecond)
+		return nil, fmt.Errorf("chunk [%d,%d) failed", m.i, m.j)
+	}
+	return span{m.i, m.j}, nil
+}
+func (m mapper) Slice(i, j int) concurrent.Mapper { return mapper{m.i + i, m.i + j, m.failAt} }
 func (m mapper) Len() int                         { return m.j - m.i }
 
 func runMap(c mapCall) {
 	var res []interface{}
 	var err error
-	if !within(20*time.Second, func() { res, err = concurrent.Map(mapper{0, c.Len}, c.Threads, c.Chunk) }) {
+	if !within(20*time.Second, func() { res, err = concurrent.Map(mapper{0, c.Len, c.FailAt}, c.Threads, c.Chunk) }) {
 		childFail("map-hangs", "Map(len %d, threads %d, chunk %d) did not return within 20 s", c.Len, c.Threads, c.Chunk)
+	}
+	if c.FailAt >= 0 && c.FailAt < c.Len {
+		if err == nil {
+			childFail("map-error-lost", "Map(len %d, threads %d, chunk %d) with a failing chunk returned no error", c.Len, c.Threads, c.Chunk)
+		}
+		// the goroutines Map leaves behind must not bring the process down
+		time.Sleep(30 * time.Millisecond)
+		return
 	}
 	if err != nil {
 		childFail("map-error", "Map(len %d, threads %d, chunk %d): %v", c.Len, c.Threads, c.Chunk, err)
@@ -322,7 +337,7 @@ func TestMap(t *testing.T) {
 			var b mapBatch
 			n := rapid.IntRange(1, 20).Draw(t, "ncalls")
 			for i := 0; i < n; i++ {
-				b.Calls = append(b.Calls, mapCall{Len: rapid.OneOf(rapid.IntRange(0, 200), rapid.IntRange(0, 10)).Draw(t, "len"), Chunk: rapid.IntRange(1, 50).Draw(t, "chunk"), Threads: rapid.IntRange(1, 16).Draw(t, "threads")})
+				b.Calls = append(b.Calls, mapCall{Len: rapid.OneOf(rapid.IntRange(0, 200), rapid.IntRange(0, 10)).Draw(t, "len"), Chunk: rapid.IntRange(1, 50).Draw(t, "chunk"), Threads: rapid.IntRange(1, 16).Draw(t, "threads"), FailAt: rapid.SampledFrom([]int{-1, -1, -1, 0, 3, 40}).Draw(t, "fail-at")})
 			}
 			return b
 		},
@@ -331,13 +346,37 @@ func TestMap(t *testing.T) {
 			return runChild(childJob{Maps: b.Calls})
 		},
 		Classes: func(b mapBatch) []string {
+			var l []string
 			for _, c := range b.Calls {
 				if c.Len > c.Chunk {
-					return []string{vlib.NT}
+					l = append(l, vlib.NT)
+				}
+				if c.FailAt >= 0 && c.FailAt < c.Len && c.Len > 3*c.Chunk {
+					l = append(l, "failing-chunk-with-chunks-unsent")
 				}
 			}
-			return nil
+			return dedup(l)
 		}})
+}
+
+func dedup(a []string) []string {
+	m := map[string]bool{}
+	var o []string
+	for _, s := range a {
+		if !m[s] {
+			m[s] = true
+			o = append(o, s)
+		}
+	}
+	return o
+}
+
+// val maps a case value to the Go value handed to the promise: 0 is the untyped nil.
+func val(v int) interface{} {
+	if v == 0 {
+		return nil
+	}
+	return v
 }
 
 // ======================================================================= Promise: sequential laws
@@ -363,14 +402,14 @@ func waitResult(p *concurrent.Promise) (concurrent.Result, bool) {
 func checkPromiseSeq(c promiseSeqCase) *vlib.Failure {
 	p := concurrent.NewPromise(c.Mutable, c.Recoverable, c.Relay)
 	set := false
-	var val interface{}
+	var cur interface{}
 	var perr error
 	relayed := false
 	for i, o := range c.Ops {
 		switch o.Kind {
 		case "fulfill":
 			var err error
-			if !within(5*time.Second, func() { err = p.Fulfill(o.V) }) {
+			if !within(5*time.Second, func() { err = p.Fulfill(val(o.V)) }) {
 				return vlib.Failf("blocks-forever", "op %d: Fulfill(%d) did not return (history %v)", i, o.V, c.Ops[:i+1])
 			}
 			switch {
@@ -382,10 +421,10 @@ func checkPromiseSeq(c promiseSeqCase) *vlib.Failure {
 				if err != nil {
 					return vlib.Failf("fulfill-rejected", "op %d: Fulfill(%d) on an %s promise returned %v", i, o.V, map[bool]string{true: "already set mutable", false: "unset"}[set], err)
 				}
-				set, val = true, o.V
+				set, cur = true, val(o.V)
 			default:
 				if err == nil {
-					return vlib.Failf("second-fulfill-accepted", "op %d: Fulfill(%d) on an immutable promise already holding %v returned no error", i, o.V, val)
+					return vlib.Failf("second-fulfill-accepted", "op %d: Fulfill(%d) on an immutable promise already holding %v returned no error", i, o.V, cur)
 				}
 				if c.Relay {
 					relayed = true // documented: the error is relayed to the promise
@@ -394,14 +433,14 @@ func checkPromiseSeq(c promiseSeqCase) *vlib.Failure {
 		case "fail":
 			e := fmt.Errorf("failure %d", o.V)
 			var ok bool
-			if !within(5*time.Second, func() { ok = p.Fail(o.V, e) }) {
+			if !within(5*time.Second, func() { ok = p.Fail(val(o.V), e) }) {
 				return vlib.Failf("blocks-forever", "op %d: Fail(%d) did not return (history %v)", i, o.V, c.Ops[:i+1])
 			}
 			if want := !set; ok != want {
 				return vlib.Failf("fail-result", "op %d: Fail returned %v on a promise that was set=%v", i, ok, set)
 			}
 			if !set {
-				set, val, perr = true, o.V, e
+				set, cur, perr = true, val(o.V), e
 			}
 		case "wait":
 			if !set {
@@ -411,8 +450,8 @@ func checkPromiseSeq(c promiseSeqCase) *vlib.Failure {
 			if !ok {
 				return vlib.Failf("wait-blocks", "op %d: Wait on a settled promise did not return", i)
 			}
-			if r.Value != val {
-				return vlib.Failf("wait-value", "op %d: Wait returned %v, the promise holds %v (history %v)", i, r.Value, val, c.Ops[:i+1])
+			if r.Value != cur {
+				return vlib.Failf("wait-value", "op %d: Wait returned %v, the promise holds %v (history %v)", i, r.Value, cur, c.Ops[:i+1])
 			}
 			if !relayed && !errors.Is(r.Err, perr) && !(r.Err != nil && perr != nil && r.Err.Error() == perr.Error()) {
 				return vlib.Failf("wait-error", "op %d: Wait returned error %v, the promise holds %v", i, r.Err, perr)
@@ -431,7 +470,7 @@ func TestPromiseSequential(t *testing.T) {
 			c := promiseSeqCase{Mutable: rapid.Bool().Draw(t, "mutable"), Recoverable: rapid.Bool().Draw(t, "recoverable"), Relay: rapid.Bool().Draw(t, "relay")}
 			n := rapid.IntRange(1, 6).Draw(t, "nops")
 			for i := 0; i < n; i++ {
-				c.Ops = append(c.Ops, pop{Kind: rapid.SampledFrom([]string{"fulfill", "fulfill", "fail", "wait", "wait"}).Draw(t, "kind"), V: rapid.IntRange(1, 9).Draw(t, "v")})
+				c.Ops = append(c.Ops, pop{Kind: rapid.SampledFrom([]string{"fulfill", "fulfill", "fail", "wait", "wait"}).Draw(t, "kind"), V: rapid.IntRange(0, 9).Draw(t, "v")})
 			}
 			return c
 		},
@@ -446,6 +485,12 @@ func TestPromiseSequential(t *testing.T) {
 			}
 			if f >= 2 {
 				l = append(l, "two-fulfills", vlib.NT)
+			}
+			for _, o := range c.Ops {
+				if o.V == 0 && o.Kind != "wait" {
+					l = append(l, "nil-value")
+					break
+				}
 			}
 			return l
 		}})
